@@ -92,7 +92,7 @@ def tokenize(data, size, ctx):
     err = None
     budget = STEP_FACTOR * (len(data) + 2)
     p = PSBaseParser(BytesIO(data))
-    seams.CLOCK.start(budget)
+    seams.CLOCK.start(budget, cpu_s=10.0 + len(data) / 10000.0)
     try:
         while True:
             pos, t = p.nexttoken()
@@ -102,8 +102,9 @@ def tokenize(data, size, ctx):
                 break
     except PSEOF:
         pass
-    except seams.SimBudgetExceeded:
-        err = "step-budget-exceeded"
+    except seams.SimBudgetExceeded as e:
+        # (the second form: CPU seconds spent where the step clock cannot see, e.g. inside a regular expression)
+        err = "cpu-budget-exceeded" if "cpu" in str(e) else "step-budget-exceeded"
     except Exception as e:  # anything but PSEOF is a violation
         err = "raise:%s@%s" % (type(e).__name__, where(e))
     finally:
@@ -150,11 +151,11 @@ def check_string(data, sizes, ctx):
 
 def gen_long(tape):
     """A very long token (thousands of bytes of one lexical class) with a little context around it."""
-    ch = tape.pick([b"1", b"7", b"9", b"a", b"(", b"<", b"A", b"#", b".", b"\\", b"%", b"\x00", b" "], "long.ch")
+    ch = tape.pick([b"1", b"7", b"9", b"a", b"(", b"<", b"A", b"#", b".", b"\\", b"%", b"\x00", b" ", b"4 1 ", b"a\n", b"0 \r\n", b"(a)", b"\\\n"], "long.ch")
     n = tape.pick([4299, 4300, 4301, 4400, 5000, 8193], "long.n")
     pre = tape.pick([b"", b" ", b"/", b"(", b"<", b"-", b"+", b"1.", b"[ "], "long.pre")
-    post = tape.pick([b"", b" ", b")", b">", b" ]", b"\n/x"], "long.post")
-    return pre + ch * n + post
+    post = tape.pick([b"", b" ", b")", b">", b" ]", b"\n/x", b"!"], "long.post")
+    return pre + (ch * n)[:n] + post
 
 
 def gen_string(tape):
